@@ -406,14 +406,17 @@ HasKey(o, k) == \E i \in DOMAIN Pairs(o) : Pairs(o)[i][1] = k
 Val(o, k) == Pairs(o)[CHOOSE i \in DOMAIN Pairs(o) : Pairs(o)[i][1] = k][2]
 
 (* plain schema: <<ldap attribute, key, type>>, type in str int float strs ints dict *)
+(* _dict_2_entry stores the TEXT of a scalar (six.text_type), a dict as is   *)
+Txt(x) == CASE x[1] = "i" -> S(ToString(x[2])) [] x[1] = "f" -> S(x[2]) [] OTHER -> x
 PlainToEntry(o, schema, opt) ==
-  {<<f[1], opt, IF Val(o, f[2])[1] = "l" THEN Val(o, f[2])[2] ELSE <<Val(o, f[2])>>>> :
+  {<<f[1], opt, IF Val(o, f[2])[1] = "l" THEN [i \in DOMAIN Val(o, f[2])[2] |-> Txt(Val(o, f[2])[2][i])]
+                ELSE <<Txt(Val(o, f[2]))>>>> :
      f \in {g \in schema : HasKey(o, g[2]) /\ Val(o, g[2]) # N0 /\ Val(o, g[2]) # L(<<>>)}}
 
 Stored(ty, x) ==    \* a value as LDAP hands it back: text; re-typed by the schema
-  CASE ty \in {"str", "strs"} -> S(IF x[1] = "s" THEN x[2] ELSE ToString(x[2]))
-    [] ty \in {"int", "ints"} -> I(x[2])
-    [] ty = "float" -> IF x[1] = "i" THEN Fl(ToString(x[2]) \o ".0") ELSE x
+  CASE ty \in {"str", "strs"} -> x
+    [] ty \in {"int", "ints"} -> I(IntOf(x[2]))
+    [] ty = "float" -> Fl(IF Pos(x[2], ".") = {} THEN x[2] \o ".0" ELSE x[2])
     [] OTHER -> x
 
 PlainFromEntry(e, schema, opt, fillLists) ==
@@ -477,6 +480,95 @@ ModelNormal(v) == ModelFromEntry(v.schema, ModelToEntry(v))
 ModelLdapDomain == {v \in LdapDomain : v.schema \in {"partition", "cellalloc"}}
 
 -----------------------------------------------------------------------------
+(* UPDATE.  Admin.update(dn, to_entry(v2)) on a directory that holds        *)
+(* to_entry(v1): the stored attributes whose name the new entry mentions    *)
+(* are fetched, _diff_entries turns (old, new) into MODIFY_ADD / _REPLACE / *)
+(* _DELETE triples, the directory applies them.  Set-wise per attribute     *)
+(* family (name without option): every family the new entry MENTIONS ends   *)
+(* up with exactly the new entry's non-empty values, every other family is  *)
+(* untouched.  to_entry mentions a plain attribute when the key is present  *)
+(* and not an empty list (None = mentioned with no value = removal), and    *)
+(* ALWAYS mentions the attributes of the option-indexed object list.        *)
+
+Mentioned(v) ==
+  LET plain == IF v.schema = "partition" THEN PartPlain ELSE AllocPlain
+      sub == IF v.schema = "partition" THEN PartLimit ELSE AllocAssign
+  IN {f[1] : f \in {g \in plain : HasKey(v.obj, g[2]) /\ Val(v.obj, g[2]) # L(<<>>)}}
+     \cup {f[1] : f \in sub}
+
+ApplyDiff(e1, e2, mentioned) == {t \in e1 : t[1] \notin mentioned} \cup e2
+ModelUpdate(v1, v2) == ApplyDiff(ModelToEntry(v1), ModelToEntry(v2), Mentioned(v2))
+
+(* the same at object level: v2's keys override v1's; an empty plain list    *)
+(* does not (it is not written at all); the object list is always replaced  *)
+ObjMerge(v1, v2) ==
+  LET lkey == IF v1.schema = "partition" THEN "limits" ELSE "assignments"
+      k1 == {Pairs(v1.obj)[i][1] : i \in DOMAIN Pairs(v1.obj)}
+      k2 == {Pairs(v2.obj)[i][1] : i \in DOMAIN Pairs(v2.obj)}
+      over(k) == k \in k2 /\ (k = lkey \/ Val(v2.obj, k) # L(<<>>))
+      keys == (k1 \cup k2) \ (IF lkey \in k2 THEN {} ELSE {lkey})
+  IN [schema |-> v1.schema,
+      obj |-> D(SeqOfSet({<<k, IF over(k) THEN Val(v2.obj, k) ELSE Val(v1.obj, k)>> : k \in keys}))]
+
+(* v2 says something about everything v1 has: then the result is v2's normal form *)
+Complete(v1, v2) == {t[1] : t \in ModelToEntry(v1)} \subseteq Mentioned(v2)
+
+(* pair domain: one key changes between two of its variants (the variants   *)
+(* of the object specifications plus the ones below: case only, order only, *)
+(* multiplicity only, same text different type, one option changed), a key  *)
+(* disappears, a key appears                                                *)
+ObjSet(spec, key, val) ==
+  D([i \in DOMAIN spec |-> <<spec[i].k, IF spec[i].k = key THEN val ELSE spec[i].vs[1]>>])
+ObjDrop(spec, key) == ObjOf(spec, Keys(spec) \ {key}, NoAlt)
+VsOf(spec, extra, i) == spec[i].vs \o (IF spec[i].k \in DOMAIN extra THEN extra[spec[i].k] ELSE <<>>)
+UpdPairs(spec, extra) ==
+  UNION {{<<ObjSet(spec, spec[i].k, VsOf(spec, extra, i)[a]), ObjSet(spec, spec[i].k, VsOf(spec, extra, i)[b])>> :
+            a \in DOMAIN VsOf(spec, extra, i), b \in DOMAIN VsOf(spec, extra, i)} : i \in DOMAIN spec}
+  \cup {<<ObjOf(spec, Keys(spec), NoAlt), ObjDrop(spec, k)>> : k \in Keys(spec)}
+  \cup {<<ObjDrop(spec, k), ObjOf(spec, Keys(spec), NoAlt)>> : k \in Keys(spec)}
+
+PartitionUpd ==
+  "_id" :> <<S("P1")>>
+  @@ "data" :> <<D(<<<<"k", S("V")>>>>)>>
+  @@ "down-threshold" :> <<S("5")>>
+  @@ "limits" :> <<L(<<Lim("GPU", "200%", "2G", "2048M")>>), L(<<Lim("gpu", "200%", "2g", "2048M")>>),
+                  L(<<Lim("gpu", "100%", "2G", "2048M")>>)>>
+  @@ "reboot-schedule" :> <<S("SAT,SUN/10:30:00")>>
+  @@ "systems" :> <<L(<<I(22), I(1)>>), L(<<I(1), I(1), I(22)>>), L(<<I(1), I(22), I(22)>>),
+                   L(<<S("1"), S("22")>>)>>
+CellAllocUpd ==
+  "assignments" :> <<L(<<Asg("Proid.App*", 1)>>), L(<<Asg("proid.app*", 2)>>),
+                     L(<<Asg("proid.a-1#*", 1), Asg("proid.b*", 100)>>)>>
+  @@ "cell" :> <<S("C1")>>
+  @@ "max_utilization" :> <<S("1.5")>>
+  @@ "partition" :> <<S("P1")>>
+  @@ "rank" :> <<S("100")>>
+  @@ "traits" :> <<L(<<S("GPU"), S("ssd")>>), L(<<S("ssd"), S("gpu")>>), L(<<S("gpu"), S("gpu"), S("ssd")>>)>>
+AppUpd ==
+  "affinity_limits" :> <<D(<<<<"server", I(2)>>>>), D(<<<<"rack", I(1)>>>>)>>
+  @@ "args" :> <<L(<<S("--FLAG"), S("a b")>>), L(<<S("a b"), S("--flag")>>)>>
+  @@ "endpoints" :> <<L(<<D(<<<<"name", S("http")>>, <<"port", I(8001)>>>>)>>),
+                     L(<<D(<<<<"name", S("http")>>, <<"port", S("8000")>>>>)>>),
+                     L(<<D(<<<<"name", S("HTTP")>>, <<"port", I(8000)>>>>)>>)>>
+  @@ "environ" :> <<L(<<D(<<<<"name", S("A")>>, <<"value", S("debug")>>>>)>>),
+                   L(<<D(<<<<"name", S("A")>>, <<"value", S("DEBUG")>>>>)>>)>>
+  @@ "ephemeral_ports" :> <<D(<<<<"tcp", I(2)>>, <<"udp", I(2)>>>>)>>
+  @@ "features" :> <<L(<<S("DOCKER")>>)>>
+  @@ "identity_group" :> <<S("PROID.IG")>>
+  @@ "schedule_once" :> <<S("TRUE"), S("false")>>
+  @@ "services" :> <<L(<<D(<<<<"command", S("/BIN/web")>>, <<"name", S("web")>>>>)>>)>>
+  @@ "shared_ip" :> <<S("true"), S("True"), S("false")>>
+  @@ "tickets" :> <<L(<<S("U@realm")>>)>>
+  @@ "vring" :> <<D(<<<<"cells", L(<<S("C1"), S("c2")>>)>>,
+                     <<"rules", L(<<D(<<<<"endpoints", L(<<S("ssh"), S("http")>>)>>, <<"pattern", S("proid.*")>>>>)>>)>>>>)>>
+
+LdapUpdDomain ==
+  {[schema |-> "partition", v1 |-> p[1], v2 |-> p[2]] : p \in UpdPairs(PartitionSpec, PartitionUpd)}
+  \cup {[schema |-> "cellalloc", v1 |-> p[1], v2 |-> p[2]] : p \in UpdPairs(CellAllocSpec, CellAllocUpd)}
+  \cup {[schema |-> "app", v1 |-> p[1], v2 |-> p[2]] : p \in UpdPairs(AppSpec, AppUpd)}
+ModelUpdDomain == {u \in LdapUpdDomain : u.schema \in {"partition", "cellalloc"}}
+
+-----------------------------------------------------------------------------
 (* LOSSLESS lists.  The normal form may re-order a list and add defaults,   *)
 (* it must not LOSE an element: every non-empty list an object is written   *)
 (* with (at any depth; paths go through dictionary keys, the elements of a  *)
@@ -533,8 +625,7 @@ Dec(f, v, s) == CASE f = "rule" -> DecRule(s) [] f = "uniq" -> DecUniq(s) [] f =
 (* identifies the 77-bit seed, whichever instance it was generated for       *)
 Ident(f, v) == IF f = "uid" THEN v.uid ELSE v
 
-(* one state per (format, value): the format's own round trip.  Injectivity *)
-(* is evaluated once per format (at its first value).                       *)
+(* the domains as sequences (export)                                        *)
 RuleSeq == SeqOfSet(RuleDomain)
 UniqSeq == SeqOfSet(UniqDomain)
 UidSeq == SeqOfSet(UidDomain)
@@ -542,27 +633,46 @@ EventSeq == SeqOfSet(EventDomain)
 ZkSeq == SeqOfSet(ZkDomain)
 LdapSeq == SeqOfSet(LdapDomain)
 ModelLdapSeq == SeqOfSet(ModelLdapDomain)
-DomSeq(f) == CASE f = "rule" -> RuleSeq [] f = "uniq" -> UniqSeq [] f = "uid" -> UidSeq
-               [] f = "event" -> EventSeq [] f = "zk" -> ZkSeq [] f = "ldap" -> LdapSeq
-               [] f = "ldapmodel" -> ModelLdapSeq
+LdapUpdSeq == SeqOfSet(LdapUpdDomain)
+ModelUpdSeq == SeqOfSet(ModelUpdDomain)
+(* the states carry the VALUE (TLC does not cache the domain definitions:    *)
+(* indexing a domain sequence per state recomputes it)                      *)
+CheckedFormats == NameFormats \cup {"ldapmodel", "updmodel"}
+DomOf(f) == CASE f = "rule" -> RuleDomain [] f = "uniq" -> UniqDomain [] f = "uid" -> UidDomain
+              [] f = "event" -> EventDomain [] f = "ldapmodel" -> ModelLdapDomain
+              [] f = "updmodel" -> ModelUpdDomain
 
 VARIABLES fmt, k
-Init == fmt \in NameFormats \cup {"ldapmodel"} /\ k \in 1..Len(DomSeq(fmt))
+(* one state per (format, value) plus one state ("inj", format) where the    *)
+(* format's injectivity is evaluated once                                   *)
+Init == \/ fmt \in CheckedFormats /\ k \in DomOf(fmt)
+        \/ fmt = "inj" /\ k \in CheckedFormats \ {"updmodel"}
 Next == UNCHANGED <<fmt, k>>
 
-ValueAt == DomSeq(fmt)[k]
+ValueAt == k
 
 InvRoundTrip ==
-  IF fmt = "ldapmodel"
-  THEN ModelNormal(ModelNormal(ValueAt)) = ModelNormal(ValueAt)
-  ELSE Dec(fmt, ValueAt, Enc(fmt, ValueAt)) = ValueAt
+  CASE fmt = "ldapmodel" -> ModelNormal(ModelNormal(ValueAt)) = ModelNormal(ValueAt)
+    [] fmt \in {"updmodel", "inj"} -> TRUE
+    [] OTHER -> Dec(fmt, ValueAt, Enc(fmt, ValueAt)) = ValueAt
+
+(* the entry-level, set-wise update decodes to the object-level merge; when  *)
+(* the new object says something about everything the old one has, to the   *)
+(* new object's normal form                                                 *)
+InvUpdate ==
+  fmt = "updmodel" =>
+    LET a == [schema |-> ValueAt.schema, obj |-> ValueAt.v1]
+        b == [schema |-> ValueAt.schema, obj |-> ValueAt.v2]
+        got == ModelFromEntry(a.schema, ModelUpdate(a, b))
+    IN /\ got = ModelNormal(ObjMerge(a, b))
+       /\ Complete(a, b) => got = ModelNormal(b)
 
 InvInjective ==
-  k = 1 =>
-    IF fmt = "ldapmodel"
+  fmt = "inj" =>
+    IF k = "ldapmodel"
     THEN LET NF == {ModelNormal(v) : v \in ModelLdapDomain}
          IN Cardinality({<<n.schema, ModelToEntry(n)>> : n \in NF}) = Cardinality(NF)
-    ELSE Cardinality({Enc(fmt, v) : v \in Domain(fmt)}) = Cardinality({Ident(fmt, v) : v \in Domain(fmt)})
+    ELSE Cardinality({Enc(k, v) : v \in Domain(k)}) = Cardinality({Ident(k, v) : v \in Domain(k)})
 
 InvLossless == fmt = "ldapmodel" => Lossless(ValueAt.obj, ModelNormal(ValueAt).obj)
 
